@@ -13,6 +13,7 @@ EXHAUSTIVE = False
 RULE = ("poly.div cases for every dividend length 0..11 (empty, degree 0..10) x every divisor length 0..7 (empty, degree 0..6; constants and "
         "divisors longer than the dividend included), families: Rat small fractions; integer-valued f64 whose divisor's leading coefficient has a "
         "reciprocal that does not round-trip (49, 98, 103, ...: computed, 1/d*d != 1); general f64 with coefficient ratios up to 1e6; Complex<f64>; "
+        "structured dividends u = q0*v + r0 with zero interior quotient coefficients and sparse binomial operands (multi-degree drops of the remainder); "
         "all-zero and empty divisors; divisors with a zero leading coefficient (outside the claim: tie only; floats must still terminate); "
         "distinct = distinct executor line; non-trivial = the long-division loop runs at least once (len u >= len v, valid divisor)")
 TRUSTED = ["Coq 8.16.1 kernel + vm_compute (primitive floats bit-exact)", "Rust executor /verif/harness (Rat = i128 rationals; k_poly.rs uses the public Polynomial API only)",
@@ -122,6 +123,32 @@ def generate(rng, tier):
         v = [float(small_int(g, -9, 9)) for _ in range(lv)]
         v[-1] = float(g.choice(BAD_LEAD))
         cases.append(mk_div('f64int', u, v, "div-f64-nonroundtrip-lead", nontrivial=(lu >= lv)))
+    # structured dividends u = q0*v + r0 with a prescribed quotient that has zero interior coefficients and sparse
+    # operands: the remainder's degree then drops by two or more in one pass (exact cancellation of lower terms),
+    # the class where 'one degree per pass' shortcuts go wrong.  Exact kinds only (Rat, integer-valued f64 / Complex).
+    g = rng.fork("structured")
+    n = 60 if tier == "thorough" else 16
+    def conv_to(fam, x):
+        return x if fam == 'rat' else (float(x) if fam == 'f64int' else complex(float(x), 0.0))
+    for fam in ('rat', 'f64int', 'cplx'):
+        for _ in range(n):
+            lq, lv = g.range(2, 6), g.range(1, 5)
+            q0 = [Fraction(small_int(g, -5, 5, (1, 2))) for _ in range(lq)]
+            q0[-1] = Fraction(g.choice([1, -1, 2, 3]))
+            if lq > 2 and all(a != 0 for a in q0[1:-1]): q0[g.range(1, lq - 2)] = Fraction(0)
+            v = [Fraction(small_int(g, -4, 4, (1, 2))) for _ in range(lv)]
+            v[-1] = Fraction(g.choice([1, -1, 2, -3]))
+            r0 = [Fraction(small_int(g, -6, 6, (1, 3))) for _ in range(g.range(0, lv - 1))]
+            u = ref_add(ref_mul(q0, v), r0)
+            cases.append(mk_div(fam, [conv_to(fam, a) for a in u], [conv_to(fam, a) for a in v],
+                                "div-structured-" + fam, nontrivial=True))
+        for _ in range(n // 2):     # sparse u / sparse v (binomials, x^k + c)
+            lu, lv = g.range(3, 11), g.range(2, 6)
+            u = [Fraction(0)] * lu; v = [Fraction(0)] * lv
+            u[-1] = Fraction(g.choice([1, 2, -1])); u[g.below(lu - 1)] = Fraction(g.range(-4, 4))
+            v[-1] = Fraction(g.choice([1, -1, 2])); v[g.below(lv - 1)] = Fraction(g.choice([1, -1, 2, -2, 3]))
+            cases.append(mk_div(fam, [conv_to(fam, a) for a in u], [conv_to(fam, a) for a in v],
+                                "div-sparse-" + fam, nontrivial=(lu >= lv)))
     return rng.fork("order").shuffle(cases)          # balanced coqc shards
 
 def case_from_json(j):
